@@ -104,6 +104,8 @@ type history struct {
 	Steps []step    `json:"steps"`
 	// Stress, if set, makes this case a concurrent stress run instead of a step history.
 	Stress *stressCase `json:"stress,omitempty"`
+	// Wait, if set, makes this case a shared-memory waiter case.
+	Wait *waitCase `json:"wait,omitempty"`
 }
 
 type obs struct {
